@@ -792,7 +792,11 @@ impl Bindgen for FunctionBindgen<'_, '_> {
                     "let {map} = {operand0};\n",
                     operand0 = operands[0]
                 ));
-                self.push_str(&format!("let {len} = {map}.wit_map_len();\n"));
+                // Bring the trait into scope right here: this code is also emitted in
+                // places (future/stream payload vtables) whose module has no `use` for it.
+                self.push_str(&format!(
+                    "let {len} = {{ use {rt}::WitMap as _; {map}.wit_map_len() }};\n"
+                ));
                 let entry = self.map_entry_layout(key, value);
                 self.push_str(&format!(
                     "let {layout} = {alloc}::Layout::from_size_align({len} * {}, {}).unwrap();\n",
